@@ -15,7 +15,7 @@ AUDIT_IMPORT = ("From Coq Require Import ZArith List Bool Arith.\nImport ListNot
 CASE_TYPE = "case"
 EXPLAIN = "explain"
 AXIOM_ALLOW = []
-SHARD = 700
+SHARD = 750
 SEARCH_MAX = 1500
 THEOREMS = [
     ('c01_rep_length',
@@ -682,16 +682,20 @@ def shrink(c):
 
 
 MANIFEST = {
-    "text": "Coq theorems (no axioms) about an executable Gallina transcription of rlib_segtree::Segtree (new / from_slice / "
-            "from_iter, set, ask, modify, lower_bound, lower_bound_rev, debug), generic over a lawful-item interface: the "
-            "representation invariant is established by the constructors and preserved by every operation, a range query "
-            "returns the left-to-right merge of the logical array, set and modify change exactly the addressed positions, and "
-            "whole histories agree with the plain-array specification; the built-in items, the pair combinator and two "
-            "non-commutative user items are proved lawful.  Every run ties the model to the code: the executor drives the real "
-            "Segtree on generated histories for 10 item types and Coq checks model = implementation (all fields) and "
+    "text": "Coq theorems (25 pinned, no axioms) about an executable Gallina transcription of rlib_segtree::Segtree (new / from_slice / "
+            "from_iter, set, ask, modify, lower_bound, lower_bound_rev, debug), generic over a lawful-item interface (no "
+            "commutativity of merges or modifiers): representation invariant (c01_rep_length/top/leaf_iff/push), c01_build_correct, "
+            "c01_set_correct, c01_modify_correct (only positions l..r change, each by the modifier), c01_ask_correct / "
+            "c01_ask_tree_correct (answer = in-order merge of the plain array), c01_debug_correct, c01_history / c01_kit_history "
+            "(every finite history, precondition violations included, matches the plain-array specification), lawfulness of Min, "
+            "Max, Sum, MinAdd, MaxAdd, SumAdd over Z, of the Combinator of lawful items (hence every nesting), of a string-list "
+            "concatenation item with Assign|Append and of an affine-tag item mod 998244353; c01_combinator_side_by_side; "
+            "c01_model_check_spec_check.  Every run ties the model to the code: the executor drives the real Segtree on generated "
+            "histories for 10 item types and Coq checks model = implementation (all fields, lazy tags included) and "
             "implementation |= plain-array specification on every history.",
-    "level_note": "Trusted: Coq kernel + vm_compute; the Rust executor and the Python printer/parsers; integers are unbounded Z "
-                  "(generated values never approach i64 limits); the correspondence is sampled.  See evidence for the list of "
-                  "pinned theorems actually compiled in the run.",
+    "level_note": "Trusted: Coq kernel + vm_compute; the Rust executor (which also defines the two user items) and the Python "
+                  "printer/parsers; i64 modelled as unbounded Z (generated values stay below 2^40); the model decides leaf-ness by "
+                  "shape where the code tests vl == vr (proved equivalent under the invariant); lower_bound(l >= n) (unasserted "
+                  "out-of-bounds panic in the crate) is outside the model; the correspondence is sampled, not exhaustive.",
     "technique": "Coq proof over Gallina model + vm_compute correspondence batches against the Rust crate",
 }
